@@ -9,6 +9,8 @@ A program is a JSON dict {"kind": "program", "lines": [line, ...], "tail_raw": s
          | {"t": "defb"|"defw"|"defl", "args": [op, ...]}
          | {"t": "defs", "n": int} | {"t": "defm", "s": str}
          | {"t": "org", "addr": int, "style": int} | {"t": "org", "sym": name, "text": str}
+           (a numeric origin drawn from the boundary set additionally carries "edge": True and, while the generator
+           may still move it, "alt": the ordinary well-separated origin it falls back to -- see settle_origins)
          | {"t": "section", "name": "code"|"text"|"data"|"bss", "text": "SECTION Data"}
     op   = {"num": int, "style": int} | {"sym": label name as defined, "text": spelling used at the reference}
 
@@ -200,6 +202,8 @@ def layout(prog: Dict[str, Any]) -> Dict[str, Any]:
     bss_rel = True  # bss labels are asserted relative to the first one until a .ORG fixes the pointer
     cur = "code"
     events: Dict[str, List[str]] = {k: ["section start"] for k in ptr}
+    # owner[section] = index of the numeric .ORG line that positioned the section's current run (None: section base)
+    owner: Dict[str, Optional[int]] = {k: None for k in ptr}
     recs: List[Dict[str, Any]] = []
     labels: Dict[str, Dict[str, Any]] = {}
 
@@ -211,7 +215,7 @@ def layout(prog: Dict[str, Any]) -> Dict[str, Any]:
         events[sec] = []
         if not ev:
             return "directly after the previous label"
-        loc = [e for e in (".ORG symbol", ".ORG", "SECTION re-entry", "section start") if e in ev]
+        loc = [e for e in (".ORG symbol", ".ORG 0", ".ORG", "SECTION re-entry", "section start") if e in ev]
         st = [e for e in ev if e not in loc]
         if len(st) > 1:
             st = ["several statements"]
@@ -228,7 +232,7 @@ def layout(prog: Dict[str, Any]) -> Dict[str, Any]:
             pre_location = True
             labels[label.upper()] = {"value": ptr[cur], "idx": idx, "bss_rel": (cur == "bss" and bss_rel),
                                      "prev": "label-only line before " + stmt_class(stmt), "section": cur,
-                                     "pre_location": True}
+                                     "pre_location": True, "owner": owner[cur]}
         if t == "section":
             cur = stmt["name"].lower()
             if events[cur] != ["section start"]:
@@ -236,28 +240,111 @@ def layout(prog: Dict[str, Any]) -> Dict[str, Any]:
             recs.append({"idx": idx, "section": cur, "addr": ptr[cur], "size": 0, "emits": False, "loc": True})
             continue
         if t == "org":
+            before = ptr[cur]
             if "sym" in stmt:
                 tgt = labels.get(stmt["sym"].upper())
                 ptr[cur] = tgt["value"] if tgt else 0
+                owner[cur] = tgt["owner"] if tgt else None
                 events[cur] = [".ORG symbol"]  # the origin overrides whatever preceded it in this section
             else:
                 ptr[cur] = int(stmt["addr"])
-                events[cur] = [".ORG"]
+                owner[cur] = idx
+                # origin 0 is named on its own: it is the one value a truthiness test confuses with "no origin"
+                events[cur] = [".ORG 0" if ptr[cur] == 0 else ".ORG"]
             if cur == "bss":
                 bss_rel = False
-            recs.append({"idx": idx, "section": cur, "addr": ptr[cur], "size": 0, "emits": False, "loc": True})
+            recs.append({"idx": idx, "section": cur, "addr": ptr[cur], "size": 0, "emits": False, "loc": True,
+                         "before": before})
             continue
         addr = ptr[cur]
         if label and not pre_location:
             labels[label.upper()] = {"value": addr, "idx": idx, "bss_rel": (cur == "bss" and bss_rel),
-                                     "prev": since(cur), "section": cur, "pre_location": False}
+                                     "prev": since(cur), "section": cur, "pre_location": False, "owner": owner[cur]}
         size = stmt_size(stmt) if stmt else 0
         recs.append({"idx": idx, "section": cur, "addr": addr, "size": size, "emits": bool(stmt) and cur != "bss",
-                     "loc": False, "bss_rel": (cur == "bss" and bss_rel)})
+                     "loc": False, "bss_rel": (cur == "bss" and bss_rel), "owner": owner[cur]})
         if stmt:
             ptr[cur] += size
             events[cur].append(prev_class(stmt))
     return {"recs": recs, "labels": labels}
+
+
+ADDRESS_SPACE = 0x100000
+
+
+def settle_origins(prog: Dict[str, Any]) -> int:
+    """Generator helper: make a program with BOUNDARY origins (`.ORG 0`, `.ORG 1`, a section base, the last
+    address, ...) well-formed.  Such an origin is kept wherever the layout model says the run it starts neither
+    collides with the bytes of another run nor leaves the 20-bit address space; otherwise the directive falls back
+    to its ordinary origin ("alt", one of the pairwise distant slots).  Only emitted bytes collide: a bss run
+    reserves addresses but emits nothing, so an origin inside bss always stays.  Statement sizes do not depend on
+    operand values, so this runs before symbolic operands are chosen.  Returns the number of origins moved."""
+    lines = prog["lines"]
+    moved = 0
+
+    def movable(i: Optional[int]) -> bool:
+        return i is not None and "alt" in (lines[i].get("stmt") or {})
+
+    for _ in range(len(lines) + 1):
+        recs = [r for r in layout(prog)["recs"] if not r.get("loc") and r["size"]]
+        victim: Optional[int] = None
+        for r in recs:
+            if r["addr"] + r["size"] > ADDRESS_SPACE and movable(r["owner"]):
+                victim = r["owner"]
+                break
+        if victim is None:
+            em = [r for r in recs if r["emits"]]
+            for k, r in enumerate(em):
+                for q in em[:k]:
+                    if r["addr"] < q["addr"] + q["size"] and q["addr"] < r["addr"] + r["size"]:
+                        cands = [o for o in (r["owner"], q["owner"]) if movable(o)]
+                        if cands:
+                            victim = max(cands)  # the later directive gives way
+                            break
+                if victim is not None:
+                    break
+        if victim is None:
+            break
+        st = lines[victim]["stmt"]
+        st["addr"] = int(st.pop("alt"))
+        st["edge"] = False
+        st["moved"] = True
+        moved += 1
+    for ln in lines:
+        if ln.get("stmt") and "alt" in ln["stmt"]:
+            del ln["stmt"]["alt"]
+    return moved
+
+
+def in_domain(prog: Dict[str, Any]) -> bool:
+    """Shrinker guard: is a (reduced) program still one the generator could have produced?  Every symbolic operand's
+    MODEL value fits its operand field (the generator only places a symbol where it fits; deleting a `.ORG` or a
+    statement can push a label out of range, and the resulting rejection would reproduce on a correct tree), no two
+    runs emit to the same address, nothing extends beyond the address space."""
+    lay = layout(prog)
+    labs = lay["labels"]
+    for ln in prog["lines"]:
+        stmt = ln.get("stmt")
+        if not stmt:
+            continue
+        if stmt["t"] == "instr":
+            for op, kind in zip(stmt["ops"], S.slots_of(stmt["shape"])):
+                if "sym" in op and kind != "J":
+                    lab = labs.get(op["sym"].upper())
+                    if lab is None or lab["value"] > S.SLOT_MAX[kind]:
+                        return False
+        elif stmt["t"] in DATA_W:
+            lim = min((1 << (8 * DATA_W[stmt["t"]])) - 1, 0xFFFFF)
+            for op in stmt["args"]:
+                if "sym" in op:
+                    lab = labs.get(op["sym"].upper())
+                    if lab is None or lab["value"] > lim:
+                        return False
+    recs = [r for r in lay["recs"] if not r.get("loc") and r["size"]]
+    if any(r["addr"] + r["size"] > ADDRESS_SPACE for r in recs):
+        return False
+    em = sorted((r["addr"], r["addr"] + r["size"]) for r in recs if r["emits"])
+    return all(em[k][1] <= em[k + 1][0] for k in range(len(em) - 1))
 
 
 def near_expectations(prog: Dict[str, Any], lay: Dict[str, Any]) -> Tuple[List[int], List[int], List[int]]:
